@@ -38,6 +38,14 @@ CHECKS.update({
    "Depth 1 from all full documents, depth 2 (thorough: 3 for two documents) from reduced documents; round trip stability, semantic equality for shipped documents, no panic, must-reject categories rejected.",
    "Trusted: the must-reject predicate (only categories the property names); nil/empty slices identified.", "3/C16"),
 })
+CHECKS.update({
+ "C06": ("snapmc", "bounded exhaustive input search over arbitrary vertex sequences on the real code built with a mechanically inserted step counter in every loop body (instrumentation of the current sources via go build -overlay); oracle: returns without panic within A*(n+2)^3 loop iterations",
+   "All walks over 2x2 / 5 / 3x2 pixel centres incl. revisits (length <= 12 quick, 14 thorough), all sequences with repeats on the half-pixel lattice, 1-3 rings incl. 1-2 point rings, multi-level, plus valid scopes: no panic, no OutsideGridError, deterministic step budget (no wall-clock oracle).",
+   "Trusted: the instrumenter's Tick insertion (semantics preserving), frozen budget constant A=64 (19x the largest ratio observed). Deep levels of real grids are covered under C03 (F6/F7).", "3/C06"),
+ "C07": ("snapmc", "stateless exploration of map-iteration orders on the instrumented real code (every range over a map / maps.Keys is a choice point; iterative deviation bounding) + exhaustive ring-direction / reverse-flag / repetition checks on the un-instrumented code, with outcome digests compared between the two builds",
+   "Per input: all-ascending, all-descending and every execution with <= 1 (thorough 2) deviations (all n! permutations per occurrence for n<=4) must return deep-equal results; plain build: 3 repetitions, every subset of rings reversed, reverse flag relation; conformance: instrumented outcomes re-observed on the un-instrumented build.",
+   "Trusted: instrumenter rewrites (validated per run by the digest comparison), maps iterated inside third-party packages are not controlled.", "3/C07"),
+})
 PENDING = {}
 ALL = ["C01","C02","C03","C04","C18","C05","C06","C07","C08","C09","C10","C11","C12","C13","C14","C15","C16","C17"]
 
